@@ -46,20 +46,27 @@ def rows(inst, states, with_cache):
     return out
 
 
+_MK = None
+
+
 def _new_cache():
+    """same construction as mcmc_sampler(cache=True): a dict seeded with the -1 -> nan entry"""
+    global _MK
     import os
 
     if os.environ.get("NUMBA_DISABLE_JIT") == "1":
         return {-1: np.nan}
-    from numba import njit
+    if _MK is None:
+        from numba import njit
 
-    @njit
-    def mk():
-        d = {}
-        d[-1] = np.nan
-        return d
+        @njit
+        def mk():
+            d = {}
+            d[-1] = np.nan
+            return d
 
-    return mk()
+        _MK = mk
+    return _MK()
 
 
 def q6(x):
